@@ -143,8 +143,14 @@ def random_fn(rng, name, profile, helpers=(), in_module=False, forbid_names=()):
         f.lifetimes.append(("'b", []))
         src.generic = "&'b str"
         f.ret_lifetime = "'b"
-        if f.deps_kind == "no_deps":
-            pass
+        if f.deps_kind in ("generic_ref", "impl_ref", "concrete_ref") and rng.random() < P.get("p_lt_relation", 0.0):
+            # return the argument with the lifetime of the deps: needs 'b: 'a
+            how = rng.choice(["inline", "where"])
+            f.lifetimes = [("'a", []), ("'b", ["'a"] if how == "inline" else [])]
+            if how == "where":
+                f.where_extra.append("'b: 'a")
+            f.deps_lifetime = "'a"
+            f.ret_lifetime = "'a"
     if ret == "borrow_deps":
         f.bounds.append("::vrt::HasName") if f.deps_kind != "concrete_ref" else None
         other_refs = any((p.ty.key in ("str", "refi", "mutref")) for p in f.params)
@@ -370,8 +376,28 @@ class FnCaseBuilder:
                              "ret": f.ret, "sig": f.sig_text()} for f in self.fns]
         return L
 
-    def case(self, tags=()):
-        src = ["#![allow(warnings)]" if False else "", APP_DEF] + self.support() + self.lines + self.driver()
+    def witness(self):
+        """Never-called generic fns coercing the fn and the trait method to one fn-pointer type."""
+        L = []
+        targs = getattr(self, "trait_generic_args", [])
+        tg = ("<" + ", ".join(targs) + ">") if targs else ""
+        for fi, f in enumerate(self.fns):
+            if f.is_async:
+                continue
+            apps = ["::entrait::Impl<App>"]
+            if f.deps_kind.startswith("concrete"):
+                apps = ["App", "::entrait::Impl<App>"]
+            for ai, app in enumerate(apps):
+                fn_app = "App" if f.deps_kind.startswith("concrete") else app
+                L.append("#[allow(unused)] fn __witness_%d_%d%s() {" % (fi, ai, f.witness_generics()))
+                L.append("    let _: %s = %s%s; /*@wfn%d*/" % (f.ptr_type(fn_app, False), self.prefix, f.name, fi))
+                L.append("    let _: %s = <%s as %s%s>::%s; /*@wtr%d*/" % (f.ptr_type(app if f.deps_kind != "no_deps" else app, True), app, self.trait_name, tg, f.name, fi))
+                L.append("}")
+        return L
+
+    def case(self, tags=(), witness=False):
+        drv = self.driver()
+        src = ["#![allow(warnings)]" if False else "", APP_DEF] + self.support() + self.lines + (self.witness() if witness else []) + drv
         nontrivial = False
         for f in self.fns:
             tys = [p.type_text() for p in f.params]
